@@ -3,10 +3,15 @@
    This file only closes statements with proved lemmas; the instance theorems are concrete histories
    (with the observations the implementation produced for them) re-evaluated inside Coq. *)
 From Coq Require Import List NArith.
-From Proto Require Import Broker Script ProofsBasic ProofsInstances.
+From Proto Require Import Broker Script ProofsBasic ProofsInstances PropsE2E ProofsE2E.
 Import ListNotations.
 Open Scope N_scope.
 
 Theorem C08_instance_c08_retained_and_parent : run_broker [262144] h_c08_retained_and_parent = o_c08_retained_and_parent.
 Proof. exact ProofsInstances.inst_c08_retained_and_parent. Qed.
 Print Assumptions C08_instance_c08_retained_and_parent.
+
+(* the retained messages a subscription to a good filter is sent are exactly those the abstract retained list (last non-empty payload per topic) selects under section 4.7 *)
+Theorem C08_retained_for : PropsE2E.C08_retained_for.
+Proof. exact ProofsE2E.retained_for. Qed.
+Print Assumptions C08_retained_for.
